@@ -44,9 +44,13 @@ def ind_cemi(i: int) -> bytes:
     return bytes.fromhex("2900bcd011070a03020080") + bytes((i & 0xFF,))
 
 
-def make_threaded(kind: str, family: str, steps: int):
+def make_threaded(kind: str, family: str, steps: int, order: str = "main-first"):
     """kind: udp | tcp; family: '' (gateway accepts) | 'refused' (the first ConnectRequest is refused: start() fails and is called again)."""
     tcp = kind == "tcp"
+    # default agent order: "main-first" = the application's loop is idle and picks everything up at once; "conn-first" = the
+    # application's loop is busy, so the connection thread runs as far as it can before the main loop gets a turn (reports and
+    # frames pile up in front of the main loop)
+    agent_order = ORDER if order == "main-first" else ["conn", "exec", "main"]
 
     def scenario(ch: Chooser) -> list[tuple[str, str]]:
         viols: list[tuple[str, str]] = []
@@ -164,7 +168,7 @@ def make_threaded(kind: str, family: str, steps: int):
                     """Run the agents until none is enabled. Returns False when the run has to be abandoned."""
                     guard = 0
                     while True:
-                        en = [a for a in ORDER if a in w.enabled()]
+                        en = [a for a in agent_order if a in w.enabled()]
                         if not en:
                             return True
                         c = ch.choose("sched:" + "+".join(en), len(en)) if len(en) > 1 else 0
